@@ -479,3 +479,74 @@ func jbig2Sized(pw, ph, rw, rh int) []byte {
 	bm.SetPixel(2, 5, true)
 	return jbig2Page(bm, pw, ph, uint32(rw), uint32(rh))
 }
+
+// jbig2ManyRegions: a page followed by n immediate generic regions of w x h pixels each,
+// without coded payload (the arithmetic decoder reads zeros), and an end-of-page segment.
+// Each region needs a bitmap of ceil(w/8)*h bytes only while it is decoded and composited.
+func jbig2ManyRegions(n, w, h int, typ int, pageW, pageH int) []byte {
+	var s []byte
+	page := jbig2.WritePageInfo(nil, pageW, pageH)
+	s = jbig2.WriteSegmentHeader(s, 0, 48, 1, nil, uint32(len(page)))
+	s = append(s, page...)
+	region := jbig2.WriteRegionSegmentInfo(nil, w, h, 0, 0, bitmap.CombOpOR)
+	region = append(region, 3<<1)    // template 3, no MMR, no typical prediction
+	region = append(region, 2, 0xFF) // AT pixel (2,-1)
+	for i := 0; i < n; i++ {
+		s = jbig2.WriteSegmentHeader(s, uint32(i+1), typ, 1, nil, uint32(len(region)))
+		s = append(s, region...)
+	}
+	return jbig2.WriteSegmentHeader(s, uint32(n+1), 49, 1, nil, 0)
+}
+
+// ccittDense: a Group 4 body of two rows over a reference row with a changing element in
+// every column (alternating pixels), the second row built from the chosen 2-D codes:
+// kind 0: VR3/VL3 alternating (a0 steps back by one pixel every second code),
+// kind 1: pass codes, kind 2: V0 codes, kind 3: VL1/VR2 alternating.
+func ccittDense(cols, kind int) []byte {
+	var p bitPacker
+	put := func(c code) { p.put(c.v, c.w) }
+	// row 1: black, white, black, ...
+	put(horizCode)
+	put(whiteRun[0])
+	put(blackRun[1])
+	for x := 1; x < cols; x += 2 {
+		put(horizCode)
+		put(whiteRun[1])
+		put(blackRun[1])
+	}
+	// row 2
+	a0, white := -1, true
+	b1 := func() int {
+		x := a0 + 1
+		if (x%2 == 0) != white {
+			x++
+		}
+		return min(x, cols)
+	}
+	vert := func(d int) {
+		put(vertCode[d])
+		a0 = min(b1()+d, cols)
+		white = !white
+	}
+	for a0 < cols-16 {
+		switch kind {
+		case 0:
+			vert(3)
+			vert(-3)
+		case 1:
+			put(passCode)
+			a0 = min(b1()+1, cols)
+		case 2:
+			vert(0)
+		default:
+			vert(-1)
+			vert(2)
+		}
+	}
+	for a0 < cols {
+		vert(0)
+	}
+	p.put(0x001, 12) // EOFB
+	p.put(0x001, 12)
+	return p.flush()
+}
